@@ -45,7 +45,17 @@ var (
 	tMap    = reflect.TypeOf(map[string]interface{}(nil))
 )
 
-func plainOf(m int) string { return fmt.Sprintf("pt-%d-x", m) }
+// plaintexts: some look like the filter's own outputs (a value is protected because of where it is,
+// never left alone because of what it looks like)
+func plainOf(m int) string {
+	switch m % 6 {
+	case 1:
+		return fmt.Sprintf("encrypted:pt%dx", m)
+	case 4:
+		return fmt.Sprintf("hmac-sha256:pt%dx", m)
+	}
+	return fmt.Sprintf("pt-%d-x", m)
+}
 
 // typeOf: the static Go type a value of this shape is declared with
 func (t *tv) typeOf() reflect.Type {
@@ -606,6 +616,20 @@ func enctreeMain(args []string) {
 		}()
 		after, _ := json.Marshal(payload)
 		line := "tree " + w + " " + ovTok + " " + strings.Join(t.toks(), " ")
+		// with every operation overridden to none the event is forwarded unchanged (the very same event)
+		eff := map[encrypt.DataClassification]encrypt.FilterOperation{encrypt.PublicClassification: encrypt.NoOperation, encrypt.SensitiveClassification: encrypt.EncryptOperation, encrypt.SecretClassification: encrypt.RedactOperation}
+		for k, v := range ov {
+			eff[k] = v
+		}
+		allNone := true
+		for _, v := range eff {
+			if v != encrypt.NoOperation {
+				allNone = false
+			}
+		}
+		if allNone && (err != nil || got != e) {
+			oracle("C10 every operation is overridden to none, but Process did not forward the event it was given unchanged (err=%v, same event=%v) || case: %s", err, got == e, line)
+		}
 		res := ""
 		switch {
 		case err != nil:
